@@ -538,3 +538,81 @@ func TestGUIDFields(t *testing.T) {
 		return guidFields{rapid.Uint32().Draw(t, "a"), rapid.Uint16().Draw(t, "b"), rapid.Uint16().Draw(t, "c"), rapid.Uint16().Draw(t, "d"), rapid.Uint64Range(0, 1<<48-1).Draw(t, "e")}
 	}, checkGUIDFields, func(c guidFields) bool { return c.D > 0xFF && c.E > 0xFFFFFFFF })
 }
+
+// ---- decoding into a receiver that already holds a value ---------------------------------------
+//
+// Every decoder here is a method on a receiver the caller may reuse. The value decoded from x must
+// not depend on what the receiver held before: decode(y) then decode(x) into one variable must give
+// the same value, text and bytes as decode(x) into a new one.
+
+type reuseCase struct {
+	X vf.Hex `json:"x16"`
+	Y vf.Hex `json:"previous16"`
+}
+
+func checkReuse(c reuseCase) []vf.Finding {
+	var fs []vf.Finding
+	x, y := []byte(c.X), []byte(c.Y)
+	// GUID
+	fresh, used := &guid.GUID{}, &guid.GUID{}
+	fresh.FromRawBytes(append([]byte{}, x...))
+	used.FromRawBytes(append([]byte{}, y...))
+	used.FromRawBytes(append([]byte{}, x...))
+	if *fresh != *used || fresh.ToFormatD() != used.ToFormatD() || !bytes.Equal(fresh.ToBytes(), used.ToBytes()) {
+		fs = append(fs, vf.F("GUID.FromRawBytes", "result-depends-on-previous-receiver-value", "x %x after %x: %+v (%s) want %+v (%s)", x, y, *used, used.ToFormatD(), *fresh, fresh.ToFormatD()))
+	}
+	for _, v := range []struct {
+		name string
+		mk   func() uuidLike
+		ver  byte
+	}{
+		{"uuid.UUID", func() uuidLike { return &uuid.UUID{} }, 0xFF},
+		{"uuid_v1.UUIDv1", func() uuidLike { return &uuid_v1.UUIDv1{} }, 1},
+		{"uuid_v2.UUIDv2", func() uuidLike { return &uuid_v2.UUIDv2{} }, 2},
+		{"uuid_v8.UUIDv8", func() uuidLike { return &uuid_v8.UUIDv8{} }, 8},
+	} {
+		xv, yv := x, y
+		if v.ver != 0xFF {
+			xv, yv = withVersion(x, v.ver), withVersion(y, v.ver)
+		}
+		for _, via := range []string{"Unmarshal", "FromString"} {
+			dec := func(u uuidLike, b []byte) error {
+				if via == "Unmarshal" {
+					_, err := u.Unmarshal(append([]byte{}, b...))
+					return err
+				}
+				return u.FromString(canon(b))
+			}
+			f, u := v.mk(), v.mk()
+			if dec(f, xv) != nil || dec(u, yv) != nil || dec(u, xv) != nil {
+				continue // acceptance is judged by the other sub-checks
+			}
+			fb, _ := f.Marshal()
+			ub, _ := u.Marshal()
+			if !bytes.Equal(fb, ub) || f.String() != u.String() || fmt.Sprintf("%+v", f) != fmt.Sprintf("%+v", u) {
+				fs = append(fs, vf.F(v.name+"."+via, "result-depends-on-previous-receiver-value", "x %x after %x: %+v want %+v", xv, yv, u, f))
+			}
+		}
+	}
+	return fs
+}
+
+func TestReceiverReuse(t *testing.T) {
+	s := vf.Begin(t, P, "receiver-reuse")
+	vf.Rapid(s, vf.N(8000, 120000), func(t *rapid.T) reuseCase {
+		x := rapid.SliceOfN(rapid.Byte(), 16, 16).Draw(t, "x")
+		var y []byte
+		switch rapid.IntRange(0, 2).Draw(t, "prev") {
+		case 0:
+			y = bytes.Repeat([]byte{0xFF}, 16)
+		case 1:
+			y = rapid.SliceOfN(rapid.Byte(), 16, 16).Draw(t, "y")
+		default:
+			y = make([]byte, 16)
+			for i := range y {
+				y[i] = ^x[i]
+			}
+		}
+		return reuseCase{X: x, Y: y}
+	}, checkReuse, func(c reuseCase) bool { return !bytes.Equal(c.X, c.Y) && !bytes.Equal(c.Y, make([]byte, 16)) })
+}
